@@ -60,7 +60,7 @@ LEVEL_NOTE = "trusted: vf/models/httpref.py (~250 lines), the kernel loopback, t
 NSHARDS = {"quick": 8, "thorough": 16}
 PEAK_COUNTERS = ("max_rounds_used", "big_body_bytes")
 TIMEOUT_S = {"quick": 240, "thorough": 1500}
-BUDGET_S = {"quick": 25, "thorough": 400}
+BUDGET_S = {"quick": 25, "thorough": 300}
 REQUIRE = {"responses_judged": 500, "followed_response_self_delimiting_checks": 150, "eof_after_nonpersistent_checks": 100,
            "stays_open_checks": 60, "clamp_checks": 15, "nolength_on_open_connection_cases": 50, "empty_pieces_scripted": 100,
            "big_nonkept_responses_complete_and_exact": 3, "restart_responses_judged": 60,
@@ -281,7 +281,7 @@ def cases(tier, seed, shard, nshards):
                     yield {"kind": "big", "mode": "burst", "cuts": [], "reqs": [req], "rcvbuf": 16384, "read_per_round": read_per_round}
                 i += 1
     rng = random.Random(f"{seed}:C18:{shard}")
-    n = (1000 if tier == "quick" else 96000) // nshards
+    n = (1000 if tier == "quick" else 64000) // nshards
     for c in range(n):
         nreq = rng.choice([1, 2, 2, 3, 3, 4, 5, 6])
         reqs = [gen_req(rng, f"R{shard}c{c}q{j}", last=(j == nreq - 1)) for j in range(nreq)]
